@@ -25,7 +25,12 @@ def run(ck, ctx):
     ck.rule("R06.7", "every local update is handed to replication: in ReplicatedShardedState::execute a delta returned by the shard reaches "
                      "queue_deltas on every path when replication is enabled (both gossip back ends), and apply_remote_deltas forwards "
                      "every received delta to the shard that owns its key")
-    ck.nd("convergence over delivery orders, duplication, partitions; gossip/anti-entropy liveness; TTL agreement (algebra: C07)")
+    ck.rule("R06.8", "delivery order cannot matter: every merge function applied to delivered updates is a certified lattice join "
+                     "(commutative, associative, idempotent by shape) - the C07 certificate R07.0-R07.3, shared: replicas that received the "
+                     "same updates in different orders, or twice, agree only if the merge has these laws")
+    ck.nd("convergence as a run-time fact (gossip/anti-entropy liveness, partitions); TTL agreement")
+    from . import c07
+    c07.certify(ck, rid=lambda r: "R06.8", floor_id="R06.8")
     for cfg in ctx.configs:
         prog = ctx.prog(cfg)
         ck.configs.append(cfg)
@@ -307,6 +312,24 @@ def _r065(ck, prog, cfg):
             continue
         roots = _roots(f, si)
         n += 1
+        # a snapshot of the replication state taken *before* the ingest is not the merged value either
+        stale = []
+        for r in sorted(roots):
+            ls = [n["pl"]["l"] for n in f.names if n["n"] == r and "p" not in n["pl"]]
+            if not ls:
+                continue
+            l = ls[0]
+            for (db, di, kind, payload) in f.defs().get(l, []):
+                if db in after or db == ib:
+                    continue
+                sv = src_of_operand(f, {"cp": {"l": l}}, through_calls=TRANSPARENT + (r"Option::<.*>::(map|cloned|copied|as_ref)$", r"HashMap::<.*>::get", r"Deref>::deref$"))
+                if "replica_state" in sv.fields or "replicated_keys" in sv.fields:
+                    stale.append(r)
+        if stale:
+            ck.bad("R06.5", "apply_remote_delta_impl:branch-on-pre-merge-snapshot%s" % _tag(cfg),
+                   "after merging, the decision to update the executor depends on %s, read from the replication state before the merge: what the "
+                   "node serves must follow the merged value (a delta that loses the key-level comparison can still add hash fields)" % stale,
+                   f.where(t["ln"]))
         if "delta" in roots - {"delta.key"}:
             ck.bad("R06.5", "apply_remote_delta_impl:branch-on-incoming-delta#%d%s" % (n, _tag(cfg)),
                    "after merging, the decision to update the executor depends on the incoming delta (%s): a 'losing' delta can still "
@@ -331,6 +354,12 @@ def _roots(f, si):
         srcs = [src_of_operand(f, a, through_calls=TRANSPARENT) for a in s.term["args"] if "c" not in a]
     else:
         srcs = [s]
+    # a closure passed to a combinator (`opt.map_or(false, |l| delta.value.timestamp <= l)`) decides with what it captured
+    for x in list(srcs):
+        if x.kind == "agg" and x.rv.get("ak") in ("closure", "coroutine"):
+            for o in x.rv.get("ops", []):
+                if "c" not in o:
+                    srcs.append(src_of_operand(f, o, through_calls=TRANSPARENT))
     for x in srcs:
         if x.kind == "path" and x.root:
             if x.root == "delta":
